@@ -25,7 +25,7 @@ CHECKS["C03"] = dict(
     level_note="Trusted: porcupine's checker, the race detector, one atomic counter as real-time order. Zero-value messages are not probed concurrently with Ack/Nack (documented data race by design, outside the property).",
     steps=[
         dict(name="exhaustive", run="^TestExhaustiveSequences$", quick=1, thorough=1),
-        dict(name="histories", run="^TestConcurrentHistories$", quick=3000, thorough=1500000, shards_thorough=13),
+        dict(name="histories", run="^TestConcurrentHistories$", quick=10000, thorough=1500000, shards_thorough=13),
         # zero-value messages with concurrent readers: the field read is racy by design, so no race detector here
         dict(name="zero-value-readers", run="^TestZeroValueConcurrentReaders$", quick=60, thorough=3000, shards_thorough=2, norace=True),
     ],
